@@ -125,6 +125,13 @@ def check_matrix(M, dtype):
     return fails, cyclic
 
 
+def _order_of(M):
+    try:
+        return [int(x) for x in U.topological_ordering(np.array(M, dtype=float))]
+    except Exception:
+        return None
+
+
 def run_unit(unit):
     acc = Acc()
     cases = []
@@ -146,7 +153,7 @@ def run_unit(unit):
             neg = any(x < 0 for r in M for x in r)
             if nz >= 2 and neg:
                 acc.nontrivial += 1
-            acc.outcome([cyclic, bool(fails)])
+            acc.outcome([cyclic, bool(fails), _order_of(M) if dtype == "float" else None])
             for sig, msg in fails:
                 acc.fail("matrix", {"M": M, "dtype": dtype}, sig, msg)
         if len(acc.samples) < 2 and any(x < 0 for r in M for x in r) and acc.states > 20:
